@@ -36,6 +36,7 @@ func propC14(c c14Case) hh.Verdict {
 	for _, fe := range fes {
 		fc := feCase{Root: c.Root, Logical: c.Logical, FE: fe, Mode: "parse"}
 		spec, res, exp, text, skip := runFE(fc, false)
+		text = clip(text)
 		if skip != "" {
 			v.Classes = append(v.Classes, "fe-skip:"+fe+":"+skip)
 			continue
@@ -157,10 +158,41 @@ func TestC14(t *testing.T) {
 	if h.Thorough() {
 		cfg.MaxDepth, cfg.MaxFields, cfg.MaxElems = 4, 6, 5
 	}
+	// large documents: one record whose text is 1 KiB ... 3 MiB (a long string, or a long list), through the front
+	// ends that carry documents (net/http accepts forms up to 10 MB)
+	hh.Enumerate(h, "large-documents", func(yield func(c14Case)) {
+		for _, size := range []int{1 << 10, 1<<20 - 64, 1<<20 + 1, 3 << 20} {
+			for _, shape := range []string{"string", "list"} {
+				root := &model.Node{Kind: model.KStruct, Fields: []model.Field{
+					{Key: "name", Node: &model.Node{Kind: model.KString, Req: true, Tests: []model.TestSpec{{Name: "min", N: 3}}}},
+					{Key: "tags", Node: &model.Node{Kind: model.KSlice, Elem: &model.Node{Kind: model.KString}, Tests: []model.TestSpec{{Name: "min", N: 1}}}},
+				}}
+				rec := model.Map(model.KV{K: "name", V: model.Str("bob")}, model.KV{K: "tags", V: model.List(model.Str("a"), model.Str("b"))})
+				if shape == "string" {
+					rec.M[0].V = model.Str(strings.Repeat("n", size))
+				} else {
+					l := model.Val{T: "list"}
+					for i := 0; i < size/8; i++ {
+						l.L = append(l.L, model.Str("tag-x"))
+					}
+					rec.M[1].V = l
+				}
+				yield(c14Case{Root: root, Logical: rec, FEs: []string{model.FEMap, model.FEJSON, model.FEHTTPJSON, model.FEForm}})
+			}
+		}
+	}, propC14)
 	hh.SubEx(h, "equivalence", h.N(12000, 60000), func(rt *rapid.T) c14Case { return genC14(rt, h, cfg) }, propC14, func(c c14Case) string {
 		if h.Open("source-tag-on-empty-object") && emptyObjectWithSourceTags(feCase{Root: c.Root, Logical: c.Logical, FE: model.FEJSON, Mode: "parse"}) {
 			return "source-tag-on-empty-object"
 		}
 		return ""
 	})
+}
+
+// clip shortens a rendered input for messages.
+func clip(s string) string {
+	if len(s) > 400 {
+		return s[:400] + fmt.Sprintf("... (%d bytes)", len(s))
+	}
+	return s
 }
